@@ -291,6 +291,7 @@ class IRGenerator:
         self._add_imports_to_env(raw_api)
         self._merge_patches()
         self._populate_type_attributes()
+        self._validate_alias_references()
         self._populate_field_defaults()
         self._populate_enumerated_subtypes()
         self._populate_route_attributes()
@@ -722,6 +723,62 @@ class IRGenerator:
                 self._resolution_in_progress.remove(data_type)
 
         assert len(self._resolution_in_progress) == 0
+
+    def _validate_alias_references(self):
+        """
+        Re-checks the rules that depend on what an alias stands for, now that
+        every alias is populated. While types are being populated an alias
+        that is declared later (or in a namespace processed later) is still
+        an empty forward reference, so a nullable reference to an alias of a
+        nullable type, or an alias cycle through a List, Map or nullable
+        type, was only caught for some declaration orders.
+        """
+        def check_nullable(data_type, loc):
+            while data_type is not None:
+                if is_nullable_type(data_type):
+                    inner, _ = unwrap_aliases(data_type.data_type)
+                    if is_nullable_type(inner):
+                        raise InvalidSpec(
+                            'Cannot mark reference to nullable type as nullable.',
+                            *loc)
+                    data_type = data_type.data_type
+                elif is_list_type(data_type):
+                    data_type = data_type.data_type
+                elif is_map_type(data_type):
+                    data_type = data_type.value_data_type
+                else:
+                    break
+
+        def reaches(start, data_type, seen):
+            # Follows aliases through List, Map and nullable wrappers.
+            while data_type is not None:
+                if is_alias(data_type):
+                    if data_type is start:
+                        return True
+                    if data_type in seen:
+                        return False
+                    seen.add(data_type)
+                    data_type = data_type.data_type
+                elif is_nullable_type(data_type) or is_list_type(data_type):
+                    data_type = data_type.data_type
+                elif is_map_type(data_type):
+                    data_type = data_type.value_data_type
+                else:
+                    return False
+            return False
+
+        for namespace in self.api.namespaces.values():
+            for alias in namespace.aliases:
+                loc = alias._ast_node.lineno, alias._ast_node.path
+                if reaches(alias, alias.data_type, set()):
+                    raise InvalidSpec(
+                        "Alias '%s' is part of a cycle." % alias.name, *loc)
+                check_nullable(alias.data_type, loc)
+            for data_type in namespace.data_types:
+                for field in data_type.fields:
+                    check_nullable(
+                        field.data_type,
+                        (field._ast_node.lineno, field._ast_node.path))
 
     def _populate_struct_type_attributes(self, env, data_type):
         """
